@@ -396,6 +396,12 @@ for _n, _d in (('v311_q1', 'v3.1.1 [QoS1 PUBLISH(i), PUBREL(k)]'), ('v311_q2', '
 S('st_send_publish_v5_manual_alias_rebind1', {}, stubs=_st, est=900, mem='XL', timeout=3600,
   bounds='v5.0 QoS0 PUBLISH (topic in {a,b}) with Topic Alias 1..=3 sent by a connected client whose table (max 3) holds one earlier binding; sender table compared with a receiver model', symbolic='k1, a1, kx, ax',
   encodes=['process_send_v5_0_publish', 'TopicAliasSend::{insert_or_update,peek}'])
+for _n, _d in (('new', 'a new identifier r != h (all u16)'), ('dup', 'the already handled identifier h')):
+    S('st_recv_publish_q2_v311_' + _n, {}, stubs=_st, est=450, mem='M',
+      bounds='QoS2 PUBLISH with %s received by a connected v3.1.1 client (automatic responses off), DUP and payload byte symbolic' % _d, symbolic='h, r, dup, payload byte',
+      encodes=['process_recv_v3_1_1_publish', 'v3_1_1::GenericPublish::parse', 'process_send_v3_1_1_pubrec'])
+H('c12_vacancy_kernel', 'core', {}, est=20, timeout=600, mem='S', uws=STEP_UWS,
+  bounds='get_receive_maximum_vacancy_for_send for all Option<u16> maxima and all u16 counters', symbolic='max, count', encodes=['get_receive_maximum_vacancy_for_send'])
 # v5.0 codec harnesses follow the same scheme as the steps (global unwind 2 + whitelist)
 CODEC_UWS = STEP_UWS[:-1] + [(r'verif_harness', 24), STEP_UWS[-1]]
 LONG_UWS = STEP_UWS[:-1] + [(r'verif_harness', 140), (r'mqtt_string|mqtt_binary|arc_payload', 140), (r'memcmp|compare_bytes|SlicePartialEq|5slice3cmp', 140), STEP_UWS[-1]]
@@ -435,26 +441,26 @@ _c18_all = [h['name'] for h in HARNESSES if h['name'].startswith('c18_')]
 _codec_q = ['c02_vbi_all_u32', 'c02_string_new_n3', 'c02_v311_puback', 'c02_v311_pubrel', 'c02_v311_unsuback', 'c02_v311_connack', 'c02_fixed_two_byte_packets', 'c02_v311_publish_q1',
             'c02_v5_connack_disconnect_auth']
 QUICK = {
+    # every quick command must finish well inside 900 s on a machine that is not faster than this one:
+    # only harnesses measured at <= 560 s (idle machine) are in the quick tier
     'C02': _codec_q,
     'C03': ['c03_numeric_tables', 'c18_values_fixed_width'] + _codec_q,
     'C04': ['c04_vbi_decode_all', 'c04_string_decode_n6', 'c04_binary_decode_n6', 'c04_v311_puback_n4', 'c04_v311_unsuback_n4', 'c04_v311_connack_n3', 'c02_fixed_two_byte_packets',
             'c04_v311_publish_struct', 'c04_v5_suback_nonminimal_proplen', 'c04_v311_connect_prefixes', 'c18_values_subscription_identifier'],
-    'C05': ['c09_f3_overlong_rl_cut5', 'c09_f3_overlong_rl_cut2', 'c04_v311_connect_prefixes', 'st_recv_connect_v5_server', 'st_recv_connect_v311_server', 'st_recv_framing_error_v5',
-            'st_recv_publish_q2_v311'],
-    'C06': ['st_send_publish_v311_q1_persistent', 'st_send_pubrel_states_v311', 'st_recv_puback_v311_persistent', 'st_send_publish_v311_never_dropped'],
-    'C07': ['st_recv_publish_q2_v311', 'st_send_pubrec_v5_handled', 'st_handled_export_restore', 'st_reuse_client_v311_clean_connect'],
+    'C05': ['c09_f3_overlong_rl_cut5', 'c09_f3_overlong_rl_cut2', 'c04_v311_connect_prefixes', 'st_recv_connect_v311_server', 'st_recv_framing_error_v5', 'st_id_calls_total'],
+    'C06': ['st_send_publish_v311_q1_persistent', 'st_recv_puback_v311_persistent'],
+    'C07': ['st_recv_publish_q2_v311_new', 'st_recv_publish_q2_v311_dup', 'st_send_pubrec_v5_handled', 'st_handled_export_restore'],
     'C08': ['c08_pidman_step_u16', 'st_id_calls_total', 'st_notify_closed_any', 'st_recv_puback_v311_persistent'],
     'C09': ['c09_f1_header_value', 'c09_f3_overlong_rl_cut1', 'c09_f3_overlong_rl_cut2', 'c09_f3_overlong_rl_cut3', 'c09_f3_overlong_rl_cut4', 'c09_f3_overlong_rl_cut5',
             'c09_f2_s1_three_frames', 'c09_f2_s3_four_byte_len', 'st_recv_two_packets_one_buffer'],
-    'C10': ['st_notify_closed_any', 'st_reuse_client_v311_clean_connect', 'st_recv_connect_v311_server'],
-    'C11': ['c11_const_table', 'c11_cell_client_v311_subscribe', 'c11_cell_client_v311_pubrel', 'c11_cell_server_v5_pubrec', 'c11_cell_any_v311_connect'],
-    'C12': ['st_recv_puback_v5_flow', 'st_send_pubrec_v5_handled'],
+    'C10': ['st_notify_closed_any', 'st_recv_connect_v311_server'],
+    'C11': ['c11_const_table', 'c11_cell_any_v311_connect', 'c11_cell_server_v5_pubrec'],
+    'C12': ['c12_vacancy_kernel', 'st_send_pubrec_v5_handled'],
     'C13': ['c13_alias_send_clear', 'c13_alias_recv_hist2', 'st_send_publish_v5_automap_limit', 'st_notify_closed_any'],
     'C14': ['c14_total_size_kernel', 'c09_f1_header_value', 'st_send_puback_v5_limit', 'st_send_publish_v5_automap_limit', 'st_recv_packet_too_large'],
-    'C15': ['st_send_pingreq_v5_client', 'st_send_disconnect_v311_client', 'st_timer_fired_server_pingreq_recv', 'st_recv_connect_v311_server', 'st_send_pubrel_states_v311', 'st_recv_pingresp_client',
-            'st_notify_closed_any'],
+    'C15': ['st_send_pingreq_v5_client', 'st_send_disconnect_v311_client', 'st_timer_fired_server_pingreq_recv', 'st_recv_connect_v311_server', 'st_recv_pingresp_client', 'st_notify_closed_any'],
     'C16': ['st_handled_export_restore'],
-    'C17': ['c17_can_receive_table', 'st_recv_connack_while_connected_v311', 'st_dispatch_client_v311'],
+    'C17': ['c17_can_receive_table', 'st_recv_connack_while_connected_v311'],
     'C18': _c18_all,
     'C19': ['st_send_disconnect_v311_client', 'st_send_disconnect_v5_server', 'st_timer_fired_v311_client', 'st_recv_framing_error_v5', 'st_recv_packet_too_large'],
     'C20': ['c20_step_u16_n3', 'c20_base_new_u16', 'c20_base_new_u32'],
@@ -463,20 +469,20 @@ THOROUGH_EXTRA = {
     'C02': [h['name'] for h in HARNESSES if h['name'].startswith('c02_')] + ['c04_vbi_decode_all', 'c18_values_fixed_width'],
     'C03': [h['name'] for h in HARNESSES if h['name'].startswith(('c02_', 'c03_'))] + ['c04_v311_connect_prefixes'],
     'C04': [h['name'] for h in HARNESSES if h['name'].startswith('c04_')] + ['st_recv_publish_q2_v311'],
-    'C05': ['c09_f3_overlong_rl_cut1', 'c09_f3_overlong_rl_cut3', 'c09_f3_overlong_rl_cut4', 'st_id_calls_total', 'st_recv_connect_v5_server_tam', 'st_dispatch_client_v311', 'st_dispatch_server_v311',
+    'C05': ['st_recv_publish_q2_v311', 'st_recv_connect_v5_server', 'c09_f3_overlong_rl_cut1', 'c09_f3_overlong_rl_cut3', 'c09_f3_overlong_rl_cut4', 'st_recv_connect_v5_server_tam', 'st_dispatch_client_v311', 'st_dispatch_server_v311',
             'st_recv_framing_error_v311', 'st_recv_puback_v311_persistent'],
-    'C06': ['st_recv_puback_v5_flow', 'st_recv_pubcomp_flow', 'st_notify_closed_any', 'st_recv_pubrec_v5_flow', 'st_recv_connack_v311_resume', 'st_erase_stored_publish_v5', 'st_send_stored_limit_v5'],
-    'C07': ['st_recv_pubrel_flow', 'st_notify_closed_any'],
+    'C06': ['st_send_pubrel_states_v311', 'st_send_publish_v311_never_dropped', 'st_recv_puback_v5_flow', 'st_recv_pubcomp_flow', 'st_notify_closed_any', 'st_recv_pubrec_v5_flow', 'st_recv_connack_v311_resume', 'st_erase_stored_publish_v5', 'st_send_stored_limit_v5'],
+    'C07': ['st_recv_publish_q2_v311', 'st_reuse_client_v311_clean_connect', 'st_recv_pubrel_flow', 'st_notify_closed_any'],
     'C08': ['c20_step_u16_n3', 'st_recv_puback_v5_flow', 'st_recv_pubcomp_flow', 'st_send_publish_v311_never_dropped', 'st_recv_unsuback_v5', 'st_recv_suback_v311', 'st_recv_suback_v5',
             'st_recv_unsuback_v311', 'st_send_publish_v5_flow', 'st_send_publish_v5_limit', 'st_recv_pubrec_v5_flow', 'st_erase_stored_publish_v5', 'st_send_stored_limit_v5', 'st_recv_connack_v311_resume'],
     'C09': ['c09_f2_s2_nonminimal', 'c09_f2_s5_partial_tail', 'c09_f2_s6_three_byte_len', 'st_recv_framing_error_v311', 'st_recv_framing_error_v5'],
-    'C10': ['st_recv_connect_v5_server'],
+    'C10': ['st_reuse_client_v311_clean_connect', 'st_recv_connect_v5_server'],
     'C11': [h['name'] for h in HARNESSES if h['name'].startswith('c11_')] + ['st_send_publish_v311_never_dropped', 'st_send_pubrel_states_v311'],
-    'C12': ['st_recv_pubcomp_flow', 'st_recv_pubrec_v5_flow', 'st_send_publish_v5_flow', 'st_erase_stored_publish_v5'],
-    'C13': ['st_recv_connect_v5_server_tam'],
+    'C12': ['st_recv_puback_v5_flow', 'st_recv_pubcomp_flow', 'st_recv_pubrec_v5_flow', 'st_send_publish_v5_flow', 'st_erase_stored_publish_v5'],
+    'C13': ['st_recv_connect_v5_server_tam', 'st_send_publish_v5_manual_alias_rebind1'],
     'C14': ['st_send_publish_v5_limit', 'st_send_stored_limit_v5'],
-    'C15': ['st_send_pingreq_v311_client', 'st_send_disconnect_v5_server', 'st_timer_fired_v311_client', 'st_timer_fired_v5_client_pingresp', 'st_recv_connect_v5_server'],
-    'C16': ['st_restore_packets_v311', 'st_restore_packets_v5', 'st_restore_packets_duplicate_id', 'st_recv_connack_v311_resume'],
+    'C15': ['st_send_pubrel_states_v311', 'st_send_pingreq_v311_client', 'st_send_disconnect_v5_server', 'st_timer_fired_v311_client', 'st_timer_fired_v5_client_pingresp', 'st_recv_connect_v5_server'],
+    'C16': ['st_restore_pair_v311_q1', 'st_restore_pair_v311_q2', 'st_restore_pair_v5_q1', 'st_restore_pair_v5_q2', 'st_restore_packets_v311', 'st_restore_packets_v5', 'st_restore_packets_duplicate_id', 'st_recv_connack_v311_resume'],
     'C17': ['st_dispatch_client_v311', 'st_dispatch_server_v311', 'st_recv_connect_v311_server', 'st_recv_connect_v5_server', 'st_recv_connack_while_connected_v5'],
     'C18': [],
     'C19': ['st_timer_fired_v5_client_pingresp', 'st_timer_fired_server_pingreq_recv', 'st_recv_framing_error_v311', 'st_recv_puback_v311_persistent', 'st_send_pingreq_v311_client', 'st_recv_puback_v5_flow'],
